@@ -6,7 +6,7 @@ from checks.common import absorb, replay, tlc_emit, validate_traces
 
 LEVEL = "model_checking"
 
-INV = "INVARIANTS IndexAgrees Disjoint FieldTypes ReadBack NoPhantom\nPROPERTIES Droppable Renamable"
+INV = "INVARIANTS IndexAgrees Disjoint FieldTypes ReadBack NoPhantom\nPROPERTIES Droppable Renamable KindsRefined"
 
 
 def run(ck):
@@ -41,11 +41,23 @@ def run(ck):
             "SPECIFICATION TraceSpec\nINVARIANTS IndexAgrees Disjoint FieldTypes ReadBack NoPhantom\n"
             "CONSTRAINT HighWater\nPOSTCONDITION Accepted\nCHECK_DEADLOCK FALSE\n")
     validate_traces(ck, "TracePoint", tcfg, tr, "point", lambda rec: rec["op"]["o"] == "init", timeout=1800)
+    # I->S over arbitrary values: extreme integers / floats / numeric texts / long and binary strings / nested collections; the
+    # executions are projected to kinds and validated against PointKinds (which Point refines: property KindsRefined above)
+    trk = os.path.join(d, "pointkinds.ndjson")
+    n, ln = (60, 120) if q else (600, 300)
+    r = vlib.vh_json(["record-point-kinds", "-seed", str(ck.seed + 17), "-n", str(n), "-len", str(ln), "-keys", "8", "-out", trk])
+    absorb(ck, r, "point-record-extreme-values")
+    kcfg = ("SPECIFICATION TraceSpec\nINVARIANTS IndexAgrees Disjoint FieldTypes\n"
+            "CONSTRAINT HighWater\nPOSTCONDITION Accepted\nCHECK_DEADLOCK FALSE\n")
+    validate_traces(ck, "TracePointKinds", kcfg, trk, "point-kinds", lambda rec: rec["op"]["o"] == "init", timeout=1800)
     ck.cov["rule"] = ("S->I: TLC explores the COMPLETE reachable state space of the Point model over 3 keys (initial field, "
                       "initial tag, fresh key) and all builtin operations/value kinds; every canonical transition (bystander keys "
                       "in initial condition) - plus in thorough a 1-in-40 sample of all others and the canonical ones of a 4-key "
                       "model - is one real builtin call on a point constructed in the pre-state, comparing Meta/Fields/Tags/"
                       "measurement, Point.Get and a script-level read of every key; distinct_nontrivial = distinct (operation, "
-                      "argument kind, key condition) classes. I->S: random sequences over 12 keys validated by TLC (TracePoint).")
+                      "argument kind, key condition) classes. I->S: random sequences over 12 keys validated by TLC (TracePoint); random sequences over 42 EXTREME values "
+                      "(largest / smallest int64, 2^63 as float, infinities, NaN, subnormals, numeric texts beyond int64, hex / padded / "
+                      "exponent spellings, 10 kB and binary strings, nested collections) projected to kinds and validated by TLC against "
+                      "TracePointKinds - the kind abstraction that Point is model-checked to refine (KindsRefined).")
     ck.assumptions += ["value domain = concrete representatives closed under the operations",
                        "cast(number, \"bool\") is excluded here and decided under C11"]
